@@ -160,7 +160,13 @@ func (b *BoltStorage) Load(ctx *Context, loc string) ([]Pair, error) {
 		for k, v := c.First(); k != nil; k, v = c.Next() {
 			Log(INFO|STORAGE, ctx, "BoltStorage.Load", "location", loc,
 				"key", string(k), "val", string(v))
-			data = append(data, Pair{k, v})
+			// The slices Bolt hands out are only valid during the
+			// transaction (they point into its memory map).
+			key := make([]byte, len(k))
+			copy(key, k)
+			val := make([]byte, len(v))
+			copy(val, v)
+			data = append(data, Pair{key, val})
 		}
 		return nil
 	})
